@@ -206,9 +206,76 @@ def parse_diagnostics(stderr_text, manifest, unit_lines, safety_clause):
     return failures, tool
 
 
-def scan_trusted(unit_text, unit_name):
-    """Every assumption marker in the generated unit, with the item it is attached to."""
+# How each stub of the preludes is (or is not) backed. Keys are item names as scan_trusted reports them.
+#   seam       = a function of /repo that this unit assumes and ANOTHER leg proves (named harness / unit)
+#   dependency = code outside /repo (std, byteorder, mysql_common, nom, rustls); "checked" names the Kani
+#                harness that checks the assumed contract against the real dependency code
+#   model      = specification vocabulary (uninterpreted functions, ghost views); not an assumption about code
+BACKING = {
+    "fn fullpacket": "seam: proved by Kani k1_fullpacket (complete, length <= 2^40)",
+    "fn onepacket": "seam: proved by Kani k1_onepacket (complete, length <= 2^40)",
+    "fn parse": "seam: proved by Kani k2_parse_* (complete per command byte, payload length <= 2^40)",
+    "fn client_handshake": "seam: proved by Kani k2_handshake_fixed (complete) and k2_handshake_user (bounded: user-name scan <= 12 bytes)",
+    "fn parse_from": "seam: proved by Kani k3_parse_fixed / k3_parse_bytes / k3_parse_temporal (complete)",
+    "fn try_from": "dependency (mysql_common ColumnType::try_from): checked by Kani k3_parse_* over all 256 codes",
+    "fn sqlstate": "seam: proved by Kani k5_codes_* (sqlstate of every defined kind; complete over all u16 codes, sharded)",
+    "fn as_u16": "seam: proved by Kani k5_codes_* (complete over all u16)",
+    "fn ER_ACCESS_DENIED_ERROR": "seam: proved by Kani k5_emitted (code 1045 / 28000)",
+    "struct ErrorKind": "seam: src/errorcodes.rs enum, opaque here; its tables are proved by Kani group k5_errors",
+    "fn write_lenenc_int": "dependency (mysql_common): checked by Kani k6_write_lenenc_int (complete, all u64)",
+    "fn write_lenenc_str": "dependency (mysql_common): checked by Kani k6_write_lenenc_str (complete in content, length classes)",
+    "fn write_u16": "dependency (byteorder): checked by Kani k6_byteorder_le (complete)",
+    "fn write_u32": "dependency (byteorder): checked by Kani k6_byteorder_le (complete)",
+    "fn write_u24": "dependency (byteorder): checked by Kani k6_byteorder_le (complete)",
+    "fn to_mysql_text": "seam: value encoders, proved by U6 (dates, times, integers, floats) / Kani k4_* (bytes, Option, forwarders); here only 'writes s_text(v) through the sink'",
+    "fn to_mysql_bin": "seam: value encoders, proved by Kani k4_* / c15_* (complete per type); here only 'writes s_bin(v, col) through the sink or refuses'",
+    "fn is_null": "seam: ToMysqlValue::is_null, Kani k4_option / k4_option_text",
+    "fn read": "ASSUMED: std Read contract of the transport (returns any n <= min(buf.len(), available); 0 only at end of stream or for an empty buffer; Err sets faulted)",
+    "fn write": "ASSUMED: std Write contract of the transport (accepts any 1 <= n <= buf.len() bytes in order, or Err)",
+    "fn write_all": "ASSUMED for the transport: std write_all (all bytes in order or Err)",
+    "fn flush": "ASSUMED: std Write::flush contract of the transport",
+    "fn new": "constructors of opaque types: io::Error::new / Cursor::new ASSUMED (std); SwitchableConn::new proved in unit u8_tls ([C18.plain.new])",
+    "fn switch_to_tls": "seam: SwitchableConn::switch_to_tls is proved in unit u8_tls against this statement ([C18.switch.tail], [C18.switch.wire], [C19.switch.fault]); rustls trusted",
+    "struct SwitchableConn": "seam: src/tls.rs SwitchableConn is opaque here; unit u8_tls proves its real read/write/flush/new against the Transport contract (predicates read_post/write_post/flush_post) under the invariant that a stream is present; write_all = std default (assumed); rustls trusted",
+    "fn vec_drain_prefix": "ASSUMED: std Vec::drain(0..n) removes exactly the first n elements (wrapper of the same call)",
+    "fn vec_tail_mut": "ASSUMED: std IndexMut<RangeFrom> (wrapper of the same expression)",
+    "fn vec_range_mut": "ASSUMED: std IndexMut<Range> (wrapper of the same expression)",
+    "fn axiom_vec_len": "ASSUMED: Vec length <= isize::MAX (std allocation guarantee)",
+    "fn hm_get_mut": "ASSUMED: std HashMap::get_mut (wrapper of the same call, map-level spec)",
+    "fn hm_entry_or_default": "ASSUMED: std HashMap::entry().or_default() (wrapper of the same call)",
+    "fn hm_append": "ASSUMED: std HashMap::entry().or_insert_with(Vec::new).extend() (wrapper of the same calls)",
+    "fn from_utf8": "ASSUMED: std::str::from_utf8 decides an uninterpreted validity predicate and returns the same bytes",
+    "fn str_bare": "ASSUMED: std str::trim / trim_end_matches / trim_matches chain = uninterpreted function `bare` (checked on samples by the witness scenario w_c02_dispatch only)",
+    "fn starts_with": "ASSUMED: std <[u8]>::starts_with",
+    "fn bytes_eq": "ASSUMED: byte-string pattern match = slice equality",
+    "fn contains": "ASSUMED: bitflags contains = mask test",
+    "fn set": "ASSUMED: bitflags set",
+    "fn kind": "ASSUMED: io::Error::kind returns the kind given to io::Error::new",
+    "fn vpanic_any": "obligation device: panic!/unreachable! in expression position become `requires false` (not an assumption)",
+    "fn chain": "ASSUMED: std Read::chain builds Chain { first, second } (read order checked (bounded) by Kani k7_prepended_read)",
+    "fn get_mut": "ASSUMED: std Chain::get_mut returns mutable references to (first, second)",
+    "fn create_stream": "ASSUMED (rustls): src/tls.rs create_stream = ServerConnection::new + StreamOwned { conn, sock }; the TLS session continues the logical stream of the socket it wraps",
+    "struct StreamOwned": "TRUSTED: rustls::StreamOwned is a Transport for the plaintext stream (TLS itself is outside every contract here)",
+    "fn vpanic": "obligation device: panic!/unreachable! become `requires false` (not an assumption)",
+    "fn default": "ASSUMED: derived Default of a crate struct (all fields None/empty)",
+    "fn tls_certs": "ASSUMED: rustls peer certificate accessor (opaque)",
+    "fn opt_to_vec": "ASSUMED: Option::map(|x| x.to_vec()) (wrapper of the same expression)",
+    "fn auth_failed_msg": "ASSUMED: contents of a byte-string literal (wrapper returns the same literal)",
+    "fn to_string": "ASSUMED: std Display of primitive integers/floats = decimal spec `dec` (checked (bounded) by native N2 over ~100000 values)",
+    "std <Vec<T> as From<&'a [T]>>::from": "ASSUMED: std Vec::from(&[T]) copies the slice",
+    "std String::as_bytes": "ASSUMED: std String::as_bytes = uninterpreted byte view str_bytes",
+    "fn vals": "ASSUMED: iterator parameter of write_row yields its items in order (R8 monomorphisation)",
+}
+
+
+def scan_trusted(unit_text, unit_name, manifest=None):
+    """Every assumption marker in the generated unit, with the item it is attached to and how it is backed."""
     out = []
+    imported = {}
+    for f in (manifest or {}).get("functions", []):
+        if f.get("kind") == "imported-contract":
+            imported["fn " + f["anchor"].rsplit("::", 1)[-1]] = "%s (%s)" % (
+                os.path.basename(f.get("imported_from") or "?").replace(".vrs", ""), f["anchor"])
     lines = unit_text.splitlines()
     for i, l in enumerate(lines):
         if l.strip().startswith("// TRANSCRIBED:"):
@@ -223,7 +290,18 @@ def scan_trusted(unit_text, unit_name):
                     if m:
                         name = "%s %s" % (m.group(1), m.group(2))
                         break
-                out.append("%s: %s -> %s" % (unit_name, marker.rstrip("("), name))
+                if marker == "assume_specification":
+                    mm = re.search(r"assume_specification[^\[]*\[\s*(.*?)\s*\]\s*\(", l)
+                    name = "std " + (mm.group(1) if mm else name)
+                if marker == "uninterp spec fn":
+                    how = "specification vocabulary (uninterpreted ghost view), not an assumption about code"
+                elif marker == "external_body" and name in imported:
+                    how = "IMPORTED contract: proved in unit %s, assumed here" % imported[name]
+                elif name.startswith("struct ") and name not in BACKING:
+                    how = "opaque dependency type"
+                else:
+                    how = BACKING.get(name, "ASSUMED (dependency stub)")
+                out.append("%s: %s -> %s  [%s]" % (unit_name, marker.rstrip("("), name, how))
     return sorted(set(out))
 
 
@@ -319,7 +397,7 @@ def run_unit(scratch, unit, prefixes, prop, tier, safety_default=None, drop_hint
         "verified": vr.get("verified", 0), "errors": vr.get("errors", 0),
         "wall_s": wall, "cmd": " ".join(cmd).replace(work, "<scratch>/verus-" + unit),
         "functions": funcs, "extracted": extracted, "rules": rules, "faithful_items": n_faithful,
-        "trusted": scan_trusted(unit_text, unit), "unit_text": unit_text, "work": work, "lost_hints": lost_hints,
+        "trusted": scan_trusted(unit_text, unit, manifest), "unit_text": unit_text, "work": work, "lost_hints": lost_hints,
         "out_rs": out_rs,
     }
 
